@@ -58,7 +58,7 @@ def engine_sources():
 
 
 def run(cmd, **kw):
-    return subprocess.run(cmd, stdout=subprocess.PIPE, stderr=subprocess.STDOUT, text=True, **kw)
+    return subprocess.run(cmd, stdout=subprocess.PIPE, stderr=subprocess.STDOUT, text=True, errors='replace', **kw)
 
 
 def harness_features():
@@ -111,7 +111,7 @@ def build_harness(flavour='san'):
             objs.append(obj)
             if not os.path.exists(obj):
                 cmd = [CXX] + flags + ['-I', d, '-I', inc, '-c', src, '-o', obj + '.tmp']
-                jobs.append((obj, subprocess.Popen(cmd, stdout=subprocess.PIPE, stderr=subprocess.STDOUT, text=True)))
+                jobs.append((obj, subprocess.Popen(cmd, stdout=subprocess.PIPE, stderr=subprocess.STDOUT, text=True, errors='replace')))
         log = ''
         for obj, p in jobs:
             out, _ = p.communicate()
